@@ -46,12 +46,23 @@ def _child_main(path, buffer, req_w, go_r, res_w, scheduled):
             return False
         return s == base or s.startswith(base + ".")
 
+    state = {"aborting": False}
+
     def yp(loc):
-        if not scheduled:
+        if not scheduled or state["aborting"]:
             return
         os.write(req_w, (loc + "\n").encode())
-        if not os.read(go_r, 1):
+        tok = os.read(go_r, 1)
+        if not tok:
             os._exit(3)
+        if tok == b"x":
+            # injected interruption *inside* the process: Ctrl-C at a statement, an I/O error at a file operation
+            state["aborting"] = True
+            if loc.startswith("raw:write") or loc.startswith("raw:close"):
+                import errno
+
+                raise OSError(errno.ENOSPC, "No space left on device (injected)")
+            raise KeyboardInterrupt("injected")
 
     # -- raw layer ------------------------------------------------------------------
     class YFileIO(io.FileIO):
@@ -220,6 +231,12 @@ class Proc:
                 trace.append((self.label, self.loc))
             self.step()
 
+    def interrupt(self):
+        """make the process raise at its current yield point, then let it unwind to the end"""
+        os.write(self.go, b"x")
+        self._advance()
+        self.run_to_end()
+
     def kill(self):
         os.kill(self.pid, signal.SIGKILL)
         os.waitpid(self.pid, 0)
@@ -272,6 +289,20 @@ def run_until_crash(path, k, buffer=50):
     loc = p.loc
     p.kill()
     return True, loc, None
+
+
+def run_until_interrupt(path, k, buffer=50):
+    """Run one process and make it raise (KeyboardInterrupt / ENOSPC) at its k-th yield point."""
+    p = Proc("A", path, buffer)
+    n = 0
+    while not p.done and n < k:
+        p.step()
+        n += 1
+    if p.done:
+        return False, None, p.result
+    loc = p.loc
+    p.interrupt()
+    return True, loc, p.result
 
 
 def count_yield_points(path, buffer=50):
